@@ -123,6 +123,26 @@ def cycle_script(rng, level, size, mx):
     return {"level": level, "size": size, "skip": 0, "max": mx, "steps": steps}
 
 
+def full_window_script(rng, level, size):
+    """The window completely in use: the oldest number of the window is missing (lastConsecutive = highest - size) and stays
+    so while the stream advances - every number in between is still to be requested."""
+    base = rng.choice([0, 65000, 33000])
+    steps = [{"a": "bind", "s": 1, "nack": True}]
+
+    def obs():
+        steps.append({"a": "tick"} if level == "icpt" else {"a": "missing", "s": 1})
+    for w in (0, 20000 % size + size // 2, size, size + 3, size + 4):
+        steps.append({"a": "recv", "s": 1, "w": (base + w) % 65536})
+        obs()
+    for w in range(size + 5, size + 40):
+        if w % 7:
+            steps.append({"a": "recv", "s": 1, "w": (base + w) % 65536})
+    obs()
+    steps.append({"a": "recv", "s": 1, "w": (base + 2 * size - 1) % 65536})
+    obs()
+    return {"level": level, "size": size, "skip": 0, "max": 0, "steps": steps}
+
+
 def run_batch(ctx, scripts, tag):
     return vlib.run_batch(ctx, tag=tag, scripts=scripts, pkg_rel=PKG, pkgname="nack", files=HARNESS,
                           test="TestVerifNackGenExec", trace_module="Trace_NackGen.tla",
@@ -183,6 +203,9 @@ def run(ctx):
     for size, n in big:
         rs.append(random_script(rng, "log", size, rng.choice([0, 2]), 0, n))
         rs.append(random_script(rng, "icpt", size, rng.choice([0, 2]), rng.choice([0, 2]), n))
+    for size in (32768, 8192, 64):       # the window completely in use (every run, not left to the sample)
+        rs.append(full_window_script(rng, "log", size))
+        rs.append(full_window_script(rng, "icpt", size))
     # windows larger than the default with MORE than the default window skipped, the options in either order
     for size, skip in ((1024, 600), (2048, 1500), (1024, 1023)) if ctx.quick else ((1024, 600), (2048, 1500), (1024, 1023), (4096, 513), (8192, 8000)):
         for rev in (False, True):
